@@ -15,7 +15,7 @@ MINORS = [0, 10, 11, 4294967295]
 LONG = "n" * 63
 API_NAMES = ["", "simdev", "other", "sïmdëv", "SimDev", "sim_dev", LONG + "x"]
 NOISE_NAMES = [None, "simdev", "other", "", "SIMDEV", "sim_dev", LONG + "-2"]
-ORDERS = ["normal", "split", "reversed", "dup_hello", "one_by_one"]
+ORDERS = ["normal", "split", "reversed", "dup_hello", "one_by_one", "second_hello"]
 
 
 def matrix() -> list[tuple]:
@@ -55,6 +55,12 @@ def build(rng: random.Random, combo: tuple, transport: str, order: str) -> dict:
         device["replies"] = {"HelloRequest": ["silent"], "ConnectRequest": [{"msgs": [cr, hr]}]}
     elif order == "dup_hello":
         device["replies"] = {"HelloRequest": [{"msgs": [hr, hr]}]}
+    elif order == "second_hello":
+        # the device answers the hello a second time, now with an acceptable answer (or, the other way round, a refusing
+        # one): the first answer is the device's answer
+        other = {"api_version_major": 1, "api_version_minor": 10, "name": expected or "simdev", "server_info": "sim"} if rng.random() < 0.7 else {"api_version_major": 3, "api_version_minor": 0, "name": "zzz", "server_info": "sim"}
+        hr2 = ["HelloResponse", other]
+        device["replies"] = {"HelloRequest": [pick(rng, [{"msgs": [hr, hr2]}, {"msgs": [hr, hr2], "split": True}])]}
     elif order == "one_by_one":
         device["replies"] = {"HelloRequest": [{"msgs": [hr], "split": True}], "ConnectRequest": [{"msgs": [cr], "split": True, "delay": 0.001}]}
     # close coincidence: the device ends the session right behind its verdict (same write, usually the same chunk);
@@ -164,7 +170,7 @@ class C06(CheckBase):
         else:
             combo = _MATRIX[rng.randrange(len(_MATRIX))]
             transport = pick(rng, ["plaintext", "noise"])
-            order = pick(rng, ORDERS, [4, 2, 1, 1, 2])
+            order = pick(rng, ORDERS, [4, 2, 1, 1, 2, 1])
         yield build(rng, combo, transport, order)
 
     def oracle(self, run: Any, scn: dict) -> list[Violation]:
